@@ -556,6 +556,8 @@ def run_c12(ctx):
                     items.append((cls, "\r\n" * k + r[0].replace("\n", "\r\n"), r[1] + k))
     items += [("dup_match_key", t, line) for t, line in faults.dup_key_programs()]
     items += [("bad_option_value", t, line) for t, line in faults.bad_option_programs()]
+    for fn in ("shadow_suffix.dsl", "shadow_prefix.dsl"):
+        items.append((None, open(os.path.join(os.path.dirname(os.path.dirname(os.path.abspath(__file__))), "corpus", "dsl", fn)).read(), None))
     items.append((None, faults.KEYWORD_PREFIX_PROGRAM, None))
     items.append((None, " ".join(faults.KEYWORD_PREFIX_PROGRAM.split()) + "\n", None))
     # documented option values, one at a time
